@@ -16,13 +16,16 @@ def decode_state_set(name):
     return set(body.split(',')) if body else set()
 
 
-def check(acc, spec, scheme='s', eps='', enc='sparse'):
+def check(acc, spec, scheme='s', eps='', enc='sparse', morph=False):
     from gambatools.nfa_algorithms import nfa_to_dfa
     params = {'spec': spec, 'scheme': scheme, 'eps': eps, 'enc': enc}
     rp = {'fn': 'mc.props.c03:one', 'mode': 'plain', 'params': params}
     inst = {'nfa': spec, 'scheme': scheme, 'eps': eps, 'enc': enc}
+    if morph:
+        rp = {'fn': 'mc.props.c03:t_space', 'mode': 'plain', 'params': dict(acc.data.get('ctx', {}), upto=spec)}
+        inst['presented_as'] = 'one live object rewritten in place after earlier conversions'
     Q, Sg, T, q0, F = spaces.nfa_parts(spec, scheme, eps)
-    ok, N = core.lib_call(acc, 'NFA()', inst, spaces.build_nfa, spec, scheme, eps, enc, repro=rp)
+    ok, N = core.lib_call(acc, 'NFA()', inst, spaces.morph_nfa if morph else spaces.build_nfa, spec, scheme, eps, enc, repro=rp)
     if not ok:
         return
     A = fa.from_parts(Q, Sg, T, q0, F, eps)
@@ -62,22 +65,32 @@ def one(acc, spec, scheme='s', eps='', enc='sparse'):
     check(acc, spec, scheme, eps, enc)
 
 
-def t_space(acc, space, shard, nshard, variants):
+def t_space(acc, space, shard, nshard, variants, morph=False, upto=None):
+    def tup(x):
+        return tuple(tup(y) for y in x) if isinstance(x, list) else x
+    upto = tup(upto) if upto is not None else None
+    space = tup(space)
+    if morph:
+        spaces._LIVE.clear()
+        acc.data['ctx'] = {'space': space, 'shard': shard, 'nshard': nshard, 'variants': variants, 'morph': True}
     for idx, spec in spaces.shard(_nfa_space(space), shard, nshard):
         for (scheme, eps, enc) in variants:
-            check(acc, spec, scheme, eps, enc)
+            check(acc, spec, scheme, eps, enc, morph=morph)
+        if upto is not None and spec == upto:
+            break
+    acc.data.clear()
 
 
 SPARSE = [('s', '', 'sparse')]
-SPELL = [('s', e, c) for e in ('', '_', 'ε') for c in ('sparse', 'total')] + [('q', '', 'sparse'), ('x', '', 'empties')]
+SPELL = [('s', e, c) for e in ('', '_', 'ε') for c in ('sparse', 'total')] + [('q', '', 'sparse'), ('x', '', 'empties'), ('t', '', 'sparse'), ('k', '_', 'sparse')]
 
 
 def plan(tier, seed):
     tasks = []
 
-    def nfa(space, variants, nshard):
+    def nfa(space, variants, nshard, morph=False):
         for s in range(nshard):
-            tasks.append(('plain', 'mc.props.c03:t_space', {'space': space, 'shard': s, 'nshard': nshard, 'variants': variants}))
+            tasks.append(('plain', 'mc.props.c03:t_space', {'space': space, 'shard': s, 'nshard': nshard, 'variants': variants, 'morph': morph}))
 
     nfa(('nfa', 1, 0, None, False), SPELL, 1)
     nfa(('nfa', 2, 0, None, False), SPELL, 1)
@@ -88,6 +101,12 @@ def plan(tier, seed):
     nfa(('chain', 4), SPARSE, 1)
     nfa(('chain', 5), SPARSE, 2)
     nfa(('chain', 6), SPARSE, 4)
+    nfa(('rot', 5), SPARSE + [('t', '', 'sparse')], 1)
+    nfa(('rot', 6), SPARSE + [('t', '', 'sparse')], 2)
+    nfa(('rot', 7), SPARSE, 4)
+    nfa(('nfa', 2, 1, None, False), SPARSE, 2, morph=True)
+    nfa(('nfa', 2, 2, 3, False), SPARSE, 4, morph=True)
+    nfa(('nfa', 3, 1, 3, False), [('t', '', 'sparse')], 4, morph=True)
     if tier == 'quick':
         nfa(('nfa', 2, 2, None, False), SPARSE, 16)
         nfa(('nfa', 3, 1, 4, False), SPARSE, 16)
@@ -105,4 +124,4 @@ def plan(tier, seed):
     return {'tasks': tasks, 'bounds': {'spaces': bounds}, 'exhaustive': True,
             'rule': 'every labelled NFA inside the bounds, once per (automaton, epsilon spelling, delta encoding, name scheme); non-trivial = reference subset automaton has >= 3 states',
             'assumptions': ['language equality decided exactly by exploring the reachable pair-state space of reference determinisations', 'NFA delta total (defaultdict or full dict)',
-                            'the initial-state clause is evaluated only when the state name is in the documented {a,b} set notation']}
+                            'the initial-state clause is evaluated only when the state name is in the documented {a,b} set notation', 'rotation family (n = 5..7 states on a cycle, many distinct large subsets), names that are substrings of each other (q1, q10, q), small spaces also through one live NFA rewritten in place']}
